@@ -224,6 +224,8 @@ _PATH_EOP = r'(?:\Z|[{sep}])'
 # Divider between `globstar`. Can match start or end of pattern
 # in addition to slashes.
 _GLOBSTAR_DIV = r'(?:^|$|{})+'
+# Same, but a final `**/` demands a directory: with `REALPATH` a directory always carries its slash.
+_GLOBSTAR_DIR_DIV = r'(?:^|{})+'
 # Lookahead to see there is one character.
 _NEED_CHAR_PATH = r'(?=[^{sep}])'
 _NEED_CHAR = r'(?=.)'
@@ -1282,6 +1284,7 @@ class WcParse(Generic[AnyStr]):
             globstar = ''
         value = star
 
+        dir_only = False
         if self.after_start and self.globstar and not self.in_list:
             skip = True
             try:
@@ -1329,6 +1332,7 @@ class WcParse(Generic[AnyStr]):
                     elif c == '/':
                         value = globstar
                         self.matchbase = False
+                        dir_only = True
 
                     if value != globstar:
                         i.rewind(i.index - index)
@@ -1366,6 +1370,9 @@ class WcParse(Generic[AnyStr]):
                     current.append(value)
                 self.consume_path_sep(i)
                 current.append(sep)
+            if self.realpath and dir_only and i.index >= len(i._string):
+                # The pattern ends with `**/`
+                current[-1] = _GLOBSTAR_DIR_DIV.format(self.sep)
             self.set_start_dir()
         else:
             current.append(value)
